@@ -359,9 +359,14 @@ class IntegerSequence(SequenceBase):
                 self.i_step = None
                 self.p_stop = self.p_start
             else:
-                self.i_step = IntegerInterval.from_integer(
-                    int(self.p_stop - self.p_start) / (reps - 1)
-                )
+                step, remainder = divmod(
+                    int(self.p_stop - self.p_start), reps - 1)
+                if remainder:
+                    raise SequenceParsingError(
+                        f'Invalid integer recurrence: {expression}'
+                        ' (the interval is not a whole number)'
+                    )
+                self.i_step = IntegerInterval.from_integer(step)
         else:
             # This means that format_num == 4.
             # REPEAT/PERIOD/STOP
@@ -375,10 +380,12 @@ class IntegerSequence(SequenceBase):
                     self.p_start = (
                         self.p_stop - self.i_step * (reps - 1))
             else:
-                remainder = (int(self.p_context_stop - self.p_start) %
+                # count backwards from the stop point (which might not be
+                # the context stop point)
+                remainder = (int(self.p_stop - self.p_context_start) %
                              int(self.i_step))
                 self.p_start = (
-                    self.p_context_start - IntegerInterval.from_integer(
+                    self.p_context_start + IntegerInterval.from_integer(
                         remainder)
                 )
 
@@ -392,7 +399,7 @@ class IntegerSequence(SequenceBase):
         if self.i_step and self.p_start < self.p_context_start:
             # start from first point >= context start
             remainder = (
-                int(self.p_context_start - self.p_start) % int(self.i_step))
+                int(self.p_start - self.p_context_start) % int(self.i_step))
             self.p_start = (
                 self.p_context_start + IntegerInterval.from_integer(
                     remainder)
@@ -405,8 +412,7 @@ class IntegerSequence(SequenceBase):
             remainder = (
                 int(self.p_context_stop - self.p_start) % int(self.i_step))
             self.p_stop = (
-                self.p_context_stop - self.i_step +
-                IntegerInterval.from_integer(remainder)
+                self.p_context_stop - IntegerInterval.from_integer(remainder)
             )
             # if i_step is None here, points will just be None (out of bounds)
 
@@ -459,7 +465,7 @@ class IntegerSequence(SequenceBase):
         else:
             prev_point = point - self.i_step
         ret = self._get_point_in_bounds(prev_point)
-        if self.exclusions and ret in self.exclusions:
+        if self.exclusions and ret is not None and ret in self.exclusions:
             return self.get_prev_point(ret)
         return ret
 
@@ -467,7 +473,7 @@ class IntegerSequence(SequenceBase):
         """Return the largest point < some arbitrary point."""
         if self.is_on_sequence(point):
             return self.get_prev_point(point)
-        sequence_point = self._get_point_in_bounds(self.p_start)
+        sequence_point = self.get_start_point()
         prev_point = None
         while sequence_point is not None:
             if sequence_point > point:
@@ -475,7 +481,11 @@ class IntegerSequence(SequenceBase):
                 break
             prev_point = sequence_point
             sequence_point = self.get_next_point(sequence_point)
-        if self.exclusions and prev_point in self.exclusions:
+        if (
+            self.exclusions
+            and prev_point is not None
+            and prev_point in self.exclusions
+        ):
             return self.get_nearest_prev_point(prev_point)
         return prev_point
 
